@@ -25,17 +25,18 @@ INVS = ["ScoreIsDefinition", "WhereIsMaximalRuns", "WhereScan", "PeakOfRun", "Re
 
 
 def consts(**kw):
-    c = dict(N=8, B=2, V=2, Thr2s={1, 3}, Mdis={1, 2}, LeftWindow="full", Emit=False, NSlices=1, Slice=0)
+    # Thr2 = 2 * threshold: odd values never tie with a score, even values do ("exceeds" is strict), 0 is the smallest
+    c = dict(N=8, B=2, V=2, Thr2s={0, 1, 2, 3}, Mdis={1, 2}, LeftWindow="full", Exceed="strict", Emit=False, NSlices=1, Slice=0)
     c.update(kw)
     return c
 
 
 STAGE_A = {
     "quick": [("N8-B2", consts()), ("N6-B1", consts(N=6, B=1, V=2, Mdis={1, 2, 3})), ("N7-B2-lemma", consts(N=7, B=2, V=2)),
-              ("N9-B3", consts(N=9, B=3, V=3, Thr2s={1, 3, 5}))],
+              ("N9-B3", consts(N=9, B=3, V=3, Thr2s={1, 2, 4, 5}))],
     "thorough": [("N9-B2", consts(N=9, B=2, V=2, Mdis={1, 2, 3})), ("N7-B1", consts(N=7, B=1, V=2, Mdis={1, 2, 3})),
-                 ("N10-B3", consts(N=10, B=3, V=3, Thr2s={1, 3, 5})), ("N8-B4", consts(N=8, B=4, V=3, Thr2s={1, 5})),
-                 ("N9-B1-V1", consts(N=9, B=1, V=1, Thr2s={1}, Mdis={1, 2, 4}))],
+                 ("N10-B3", consts(N=10, B=3, V=3, Thr2s={1, 2, 4, 5})), ("N8-B4", consts(N=8, B=4, V=3, Thr2s={0, 1, 4, 5})),
+                 ("N9-B1-V1", consts(N=9, B=1, V=1, Thr2s={0, 1, 2}, Mdis={1, 2, 4}))],
 }
 
 
@@ -109,6 +110,8 @@ def replay_case(case):
                 fails.append(("threshold_value", obs2))
             elif [float(x) for x in ts] != want:
                 fails.append(("score_is_not_the_two_sided_window_score", obs2))
+            elif float(det.threshold_) != thr and any(w == thr for w in want):
+                pass  # threshold_scale * default missed thr by an ulp AND a score ties with thr: the tie is not reproduced
             elif cps2 not in admitted:
                 fails.append(("not_peak_of_each_run", obs2))
         except Exception as e:
@@ -154,14 +157,24 @@ def record(args):
         X = lattice_data(rng, n, p, kind=int(rng.choice([1, 1, 2, 3, 4, 6])))
         if which >= 2:
             X = X + rng.integers(-2, 3, size=(n, p)) / 8.0  # avoid zero-variance windows dominating
-        tuned = bool(rng.integers(0, 4) == 0)
+        tuned = bool(rng.integers(0, 3) == 0)
+        level = float(rng.choice([0.05, 0.2, 0.25, 0.5]))
+        if tuned and rng.integers(0, 2):
+            # (n-1)*(1-level) integral: the tuned threshold IS one of the training scores, so predicting on the
+            # training data has a score exactly equal to the threshold -- which does not exceed it
+            cand = [m for m in range(2 * b, 2 * b + 25) if (m - 1) % round(1 / level) == 0]
+            if cand:
+                n = int(rng.choice(cand))
+                X = lattice_data(rng, n, p, kind=int(rng.choice([1, 2, 3, 4, 6])))
+                if which >= 2:
+                    X = X + rng.integers(-2, 3, size=(n, p)) / 8.0
         rid = f"mw-{seed}-{i}"
         # integer-valued data are passed to the detector as int64 half of the time (the reference values below are
         # always computed from the float copy): the scores must not depend on the dtype of the container
         Xin = X.astype(np.int64) if np.all(X == np.round(X)) and rng.integers(0, 2) else X
         try:
             det = MovingWindow(change_score=mk(), bandwidth=b, threshold_scale=None if tuned else float(rng.choice([0.3, 1.0, 2.0])),
-                               level=float(rng.choice([0.05, 0.2])), min_detection_interval=mdi).fit(Xin)
+                               level=level, min_detection_interval=mdi).fit(Xin)
             sc = det.transform_scores(Xin).to_numpy().ravel()
             cps = [int(c) for c in det.predict(Xin)["ilocs"].to_numpy()]
             rsc = MovingWindow(change_score=mk(), bandwidth=b, threshold_scale=1.0).fit(X[::-1].copy()) \
@@ -181,7 +194,12 @@ def record(args):
         mag = max(1.0, max(abs(v) for v in allv))
         unit = mag / 2 ** 28
         q = lambda v: int(round(v / unit))
+        # exceedance and the peak of a run are decided by the detector on ITS OWN scores and threshold_, both public and
+        # exact: dense ranks preserve every comparison (including equality) without any tolerance
+        order = {v: k for k, v in enumerate(sorted(set([float(v) for v in sc] + [float(det.threshold_)])))}
         out.append({"id": rid, "rec": "run", "score": name, "n": n, "p": p, "b": b, "mdi": mdi, "tuned": tuned,
+                    "rk": [order[float(v)] for v in sc], "rkthr": order[float(det.threshold_)],
+                    "tie": bool(any(float(v) == float(det.threshold_) for v in sc[b:n - b + 1])),
                     "thr": q(det.threshold_), "tol": 64, "unit": unit, "vals": [q(v) for v in vals],
                     "scores": [q(v) for v in sc], "cps": cps, "X": X.tolist()})
         if which == 3:
